@@ -41,9 +41,59 @@ class Infra(Exception):
     pass
 
 
+class Broken(Exception):
+    """the harness cannot drive the implementation the way it drives the unchanged one (a thread that does not stop, an object without an attribute the
+    unchanged code always sets, ...): not an infrastructure failure - the correspondence no longer checks on this tree"""
+
+
 def sh(cmd, cwd=None, timeout=3600, env=None):
     p = subprocess.run(cmd, cwd=cwd, stdout=subprocess.PIPE, stderr=subprocess.STDOUT, text=True, timeout=timeout, env=env)
     return p.returncode, p.stdout
+
+
+class Watchdog:
+    """a suite that does not come back: the unchanged tree finishes every suite in seconds (quick) / minutes (thorough), so a suite still running after the
+    budget means the implementation hangs (a loop that no longer consumes, a join that never returns).  The verdict is written by the watchdog thread itself,
+    with the stack of every thread as the replay, and the process ends with status 1."""
+
+    def __init__(self, prop, tier, seed, suite, budget):
+        import threading
+        self.prop, self.tier, self.seed, self.suite, self.budget = prop, tier, seed, suite, budget
+        self.t = threading.Timer(budget, self.fire)
+        self.t.daemon = True
+        self.t.start()
+
+    def cancel(self):
+        self.t.cancel()
+
+    def fire(self):
+        import traceback
+        import threading
+        frames = sys._current_frames()
+        stacks = {}
+        in_repo = None
+        for th in threading.enumerate():
+            fr = frames.get(th.ident)
+            if fr is None:
+                continue
+            st = traceback.extract_stack(fr)
+            stacks[th.name] = ''.join(traceback.format_list(st))[-2500:]
+            for f in reversed(st):
+                if os.path.realpath(f.filename).startswith(os.path.realpath(REPO) + os.sep):
+                    if th is threading.main_thread() or in_repo is None:
+                        in_repo = '%s:%d %s' % (os.path.relpath(f.filename, REPO), f.lineno, f.name)
+                    break
+        os.makedirs(os.path.join(ROOT, 'replays'), exist_ok=True)
+        path = os.path.join(ROOT, 'replays', '%s-%d.json' % (self.prop, self.seed))
+        rec = {'site': in_repo or self.suite, 'suite': self.suite.replace('suite_', ''), 'class': 'hang', 'input': 'the inputs of suite %s (deterministic for this seed and tier)' % self.suite,
+               'observed': 'still running after %d s (the unchanged tree needs seconds); innermost library frame: %s' % (self.budget, in_repo),
+               'required': 'every call returns or raises; nothing blocks without consuming input', 'property': self.prop}
+        json.dump({'property': self.prop, 'kind': 'failing-input' if in_repo else 'no-failing-input-found', 'tier': self.tier, 'seed': self.seed, 'failure': rec, 'stacks': stacks},
+                  open(path, 'w'), indent=1, default=str)
+        print('VIOLATION property=%s replay=%s%s' % (self.prop, path, '' if in_repo else ' no-failing-input-found'))
+        print('  first failing input: ' + json.dumps(rec)[:600])
+        sys.stdout.flush()
+        os._exit(1)
 
 
 class BuildLock:
@@ -321,8 +371,12 @@ def run_check(mod, prop, tier, seed, replay=None):
                                     'detail': 'changed=%s missing=%s' % (changed, missing)})
         # 2. suites
         for fn in mod.SUITES:
+            dog = Watchdog(prop, tier, seed, getattr(fn, '__name__', 'suite'), 240 if tier == 'quick' else 3000)
             try:
-                s = fn(ctx)
+                try:
+                    s = fn(ctx)
+                finally:
+                    dog.cancel()
             except Infra:
                 raise
             except Exception as e:  # noqa
@@ -337,7 +391,11 @@ def run_check(mod, prop, tier, seed, replay=None):
                     s.fail({'site': '%s:%d %s' % (os.path.relpath(inner, REPO), tb[-1].lineno, tb[-1].name), 'input': 'see traceback', 'class': 'unforeseen exception',
                             'observed': '%s: %s' % (type(e).__name__, e), 'required': 'the behaviour of the unchanged code (a value or a documented exception)', 'traceback': text})
                 else:
-                    raise Infra('suite %s crashed in the harness:\n%s' % (getattr(fn, '__name__', '?'), text))
+                    # the suite runs to its end on the unchanged tree (that is checked before anything is committed): on this tree the harness could not drive
+                    # the implementation as it drives the unchanged one - the correspondence is broken, no failing input was isolated
+                    obligations.append({'name': 'suite ' + getattr(fn, '__name__', 'suite').replace('suite_', ''), 'kind': 'suite', 'ok': False,
+                                        'detail': 'the suite could not run to its end on this tree: %s: %s | %s' % (type(e).__name__, e, text[-1200:])})
+                    continue
             suites.append(s)
             obligations.append({'name': 'suite ' + s.name, 'kind': 'suite', 'ok': not s.divergences,
                                 'detail': ('%d divergences' % len(s.divergences)) if s.divergences else ''})
